@@ -198,3 +198,18 @@ Example ex_slinked_live :
   mark ex_slinked (default_fuel ex_slinked) =
   Some [IPart 1 2; IFile 1; IPart 1 1; IPart 0 2; IPart 0 3; IPart 0 1; IFile 0].
 Proof. vm_compute. reflexivity. Qed.
+
+(* ---- re-export chain: file 0 uses x imported from file 1, which re-exports it
+   from file 2 (`export {x} from "./2"`, part 1/1); the binding makes part 0/1
+   depend on the re-export statement 1/1 and on the declaration 2/1 ---- *)
+Definition ex_chain_base : graph :=
+  mkGraph true false [0]
+    [ mkFile RJS true true None [] [ns_export_part; mkPart false false [] [] [] [(0, 1)]];
+      mkFile RJS false false None [] [ns_export_part; mkPart true false [mkImp true true 2 false] [] [] []];
+      mkFile RJS false false None [] [ns_export_part; mkPart true false [] [] [(0, 1)] []] ].
+Definition ex_chain_bindings := [mkBinding 0 [1] 2 (0, 1) [(1, 1)]].
+Definition ex_chain := add_bindings ex_chain_base ex_chain_bindings.
+Example ex_chain_live :
+  mark ex_chain (default_fuel ex_chain) = Some [IFile 2; IPart 2 1; IFile 1; IPart 1 1; IPart 0 1; IFile 0]
+  /\ bindings_ok ex_chain ex_chain_bindings = true /\ bindings_ok ex_chain_base ex_chain_bindings = false.
+Proof. vm_compute. auto. Qed.
